@@ -4,7 +4,9 @@ use either::Either;
 use indexmap::IndexSet;
 use sway_types::FxIndexSet;
 
-use crate::asm_lang::{ControlFlowOp, Label, Op, VirtualRegister};
+use crate::asm_lang::{
+    virtual_register::ConstantRegister, ControlFlowOp, Label, Op, VirtualRegister,
+};
 
 /// Given a list of instructions `ops` of a program, do liveness analysis for the full program.
 ///
@@ -80,6 +82,17 @@ pub(crate) fn liveness_analysis(
             if ignore_constant_regs {
                 op_use.retain(|&reg| reg.is_virtual());
                 op_def.retain(|&reg| reg.is_virtual());
+            } else {
+                // `$of` and `$err` are overwritten by every ALU instruction, which makes them
+                // defined by it just like its other def registers.
+                op_def.extend(op.def_const_registers().into_iter().filter(|&reg| {
+                    matches!(
+                        reg,
+                        VirtualRegister::Constant(
+                            ConstantRegister::Overflow | ConstantRegister::Error
+                        )
+                    )
+                }));
             }
 
             // Compute live_out(op) = live_in(s_1) UNION live_in(s_2) UNION ..., where s1, s_2, ...
